@@ -52,7 +52,8 @@ package metrics
 //@   props C13 C12
 //@   requires mcOK(mc) && unlocked(mc.metrics.mutex) && bmCellsOK(mc)
 //@   ensures cells: bmCellsOK(mc)
-//@   ensures counted: old(len(mc.metrics.BackendMetrics)) < MaxBackendMetrics ==> has(mc.metrics.BackendMetrics, backendName)
+// the cap on the number of per-backend entries must not stop counting for backends that already have one
+//@   ensures counted: old(has(mc.metrics.BackendMetrics, backendName)) || old(len(mc.metrics.BackendMetrics)) < MaxBackendMetrics ==> has(mc.metrics.BackendMetrics, backendName)
 //@             && mc.metrics.BackendMetrics[backendName].TotalRequests ==
 //@                (old(has(mc.metrics.BackendMetrics, backendName)) ? (old(mc.metrics.BackendMetrics[backendName].TotalRequests) + 1) % 18446744073709551616 : 1)
 //@   ensures others: forall k string :: {mc.metrics.BackendMetrics[k]} k != backendName && old(has(mc.metrics.BackendMetrics, k)) ==>
